@@ -1,3 +1,4 @@
+#![allow(unexpected_cfgs)]
 #[macro_use]
 #[cfg(test)]
 pub(crate) mod table_shortcuts;
